@@ -44,7 +44,7 @@ CHECKS = {
             "run; the parts that depend on CPython frame introspection (TEAL identical with/without map, one entry per line, marker "
             "attribution) are decided by running generated multi-file projects in fresh processes (labelled exploration in the evidence).",
             "Trusted: Lean kernel, TEAL tokeniser spec, tabulate layout (checked on every produced line), CPython frames/executing/algosdk as "
-            "runtime. One known finding (user file whose path contains a PyTeal-internal path fragment is misattributed).",
+            "runtime. Three known findings (user file whose path contains a PyTeal-internal path fragment is misattributed; the feature gate, and a source-map request in a router's second compilation, renumber scratch slots).",
             "DESIGN.md Part II C15"),
     "C04": ("proof",
             "Lean 4: verified legality / control-flow checker `Flow.wf` run on the real TEAL of every explored program (soundness theorems over Avm.step: no run-off, no undefined label, no retsub in main, no illegal opcode/immediate), finite-table theorems by decide +kernel over opcode and field tables regenerated from the live modules",
